@@ -28,3 +28,33 @@ package remove_fields
 //@     requires ndig == rangeindex + 1 && nrem == rangeindex
 //@     preserves Plugin, []string
 //@     set nrem := nrem + 1
+
+// Start: the plugin's path set is what cfg.ParseNestedFields makes of the configured
+// field list - that list and nothing else, parsed once, the result stored unchanged
+// (same slice: no path dropped, added or re-ordered afterwards) - and a list that does
+// not parse (an empty list, an empty selector) stops the process instead of leaving a
+// plugin that removes something else.  The configuration object kept is the one passed
+// in.  Nothing but the plugin's two fields is written.
+
+//@ func (*Plugin).Start
+//@   option allow-exit yes
+//@   ghost nparse int = 0
+//@   ghost gref int = 0
+//@   ghost goff int = 0
+//@   ghost glen int = 0
+//@   ghost gerr bool = false
+//@   requires typeis(config, "*github.com/ozontech/file.d/plugin/action/remove_fields.Config")
+//@   modifies p.config, p.fieldPaths
+//@   ensures ref(p.config) == config.pay && p.config != nil
+//@   ensures nparse == 1 && !gerr
+//@   ensures ref(p.fieldPaths) == gref && off(p.fieldPaths) == goff && len(p.fieldPaths) == glen
+//@   callee ParseNestedFields(f) (r, e)
+//@     requires nparse == 0 && ref(p.config) == config.pay && f == p.config.Fields
+//@     pure
+//@     set nparse := nparse + 1
+//@     set gref := ref(r)
+//@     set goff := off(r)
+//@     set glen := len(r)
+//@     set gerr := e != nil
+//@   callee Error() (s)
+//@     pure
